@@ -1,4 +1,5 @@
 import GoitModel.Cmds
+import GoitModel.CmdsConfig
 import GoitModel.Abstract
 
 /-! Line protocol of the model driver (function-level operations).
@@ -188,6 +189,12 @@ def step (s : St) (line : String) : St × String :=
     let i : Cmds.CommitIn := ⟨entriesIn ix, (if sn == "none" then none else some (entriesIn sn)), opt br, anyB == "1",
       opt cl, opt cg, intOf unix, intOf off, unhex msg⟩
     (s, resOut (fun r => hexOut r.1) (Cmds.commitCmd sha1Fn i))
+  | ["cmd.config", f, k, v] =>
+    -- `goit config`: the sections of the rewritten file as they load again
+    (s, match Cmds.configCmd (if f == "none" then none else some (unhex f)) (unhex k) (unhex v) with
+        | .ok c => (match Config.parse (Config.render c) with | some c' => "ok " ++ sectionsOut c' | none => "ok unloadable")
+        | .err => "err"
+        | .crash => "crash")
   | ["cmd.reflog", lg] =>
     -- `goit reflog`: the listing `Reflog.Show` prints (position, 7 hex digits, kind, message), newest first
     (s, if lg == "none" then "err" else
